@@ -1,6 +1,7 @@
 (* C13 - Handlers: map / and_then only on success, then always, exactly once.  Model: Spec.v + Gen.v. *)
 From Coq Require Import List ZArith Lia.
 From Join Require Import Tok Names Ast Ir Gen Comp Std Denote Spec Leaves SpecProps.
+From Join Require Ir Gen RefineBase RefineChain RefineProg RefineTop.
 
 (* OBLIGATION map_handler_on_success *)
 Theorem map_handler_on_success :
@@ -67,3 +68,19 @@ Proof.
   - intros [Ht ->]; rewrite Ht; reflexivity.
 Qed.
 Print Assumptions wrong_handler_kind_rejected.
+
+(* the tie between Spec.v and the generator model, PROVED for all eight kinds and all inputs (theories/proofs/RefineTop.v):
+   what is proved about `spec` above holds of the meaning of the generated code *)
+(* OBLIGATION generated_code_refines_reference_semantics *)
+Theorem generated_code_refines_reference_semantics :
+  forall (msem : string -> option (list operand) -> dval -> list dval -> comp dval)
+         (dotsem : operand -> list (string * option val) -> dval -> comp dval)
+         (callsem : val -> list dval -> comp dval) (awaitsem : val -> comp val),
+    (forall m tf r ds, RefineBase.leaves RefineChain.not_clo (msem m tf r ds)) ->
+    (forall o sn r, RefineBase.leaves RefineChain.not_clo (dotsem o sn r)) ->
+    (forall f ds, RefineBase.leaves RefineChain.not_clo (callsem f ds)) ->
+    forall (cfg : config) (inp : input) (e : Ir.rexpr) (sp : sprog),
+      RefineProg.wf inp -> Gen.gen cfg inp = Ir.Ok e -> prepare cfg inp = Some sp ->
+      den (user_names inp) msem dotsem callsem awaitsem e empty_env = spec msem dotsem callsem awaitsem sp.
+Proof. exact RefineTop.gen_refines_spec. Qed.
+Print Assumptions generated_code_refines_reference_semantics.
